@@ -26,6 +26,9 @@ import (
 type DumpCase struct {
 	T desc.T `json:"t"`
 	V desc.V `json:"v"`
+	// PreValid: the value is validated with this tag name before it is dumped ("-" = not at all; "" is
+	// the explicitly empty tag name): what the validators keep about a type is no business of the dumper
+	PreValid string `json:"prevalid,omitempty"`
 }
 
 type dumpFacts struct {
@@ -76,6 +79,14 @@ func genDumpType(t *rapid.T, depth, maxDepth int, facts *dumpFacts, inCollection
 	kinds := []string{"scalar", "scalar", "scalar", "struct", "ptr", "slice", "array", "map"}
 	if depth >= maxDepth {
 		kinds = kinds[:3]
+	}
+	if rapid.IntRange(0, 29).Draw(t, "libTime") == 17 {
+		// a struct type of another package that is NAMED Time (not time.Time): a struct like any other
+		v := desc.V{E: []desc.V{{I: int64(rapid.IntRange(0, 23).Draw(t, "hour"))}, {I: int64(rapid.IntRange(0, 59).Draw(t, "min"))}}}
+		if rapid.Bool().Draw(t, "libTimePtr") {
+			return desc.Ptr(desc.Named("Time")), desc.V{E: []desc.V{v}}
+		}
+		return desc.Named("Time"), v
 	}
 	switch rapid.SampledFrom(kinds).Draw(t, "shape") {
 	case "struct":
@@ -446,6 +457,10 @@ var prevDump, prevDumpClone string
 
 func checkDump(c *DumpCase) string {
 	c20History()
+	if c.PreValid != "-" && c.PreValid != "unset" {
+		src0 := desc.Build(desc.Type(c.T), c.V).Interface()
+		_ = ev.Guard(func() { _ = valid.ValidateStruct(src0, c.PreValid) })
+	}
 	rv := desc.Build(desc.Type(c.T), c.V)
 	src := rv.Interface()
 	var dump string
@@ -501,7 +516,7 @@ func TestC20(t *testing.T) {
 	rapid.Check(t, func(t *rapid.T) {
 		facts := &dumpFacts{}
 		st, sv := genDumpStruct(t, 0, rapid.IntRange(1, ev.Pick(5, 6)).Draw(t, "maxDepth"), facts)
-		c := &DumpCase{T: st, V: sv}
+		c := &DumpCase{T: st, V: sv, PreValid: rapid.SampledFrom([]string{"-", "-", "", "", "valid", "json"}).Draw(t, "preValid")}
 		switch rapid.IntRange(0, 5).Draw(t, "top") {
 		case 0:
 			c.T, c.V = desc.Ptr(st), desc.V{Nil: true}
